@@ -73,13 +73,18 @@ SITE_OF_SIG = {"literal_value_escape": "core.literal_value", "non_ascii_identifi
                "insertion_after_last_line": "core.get_charnos"}
 
 WITNESS = {
-    "F04-1": ["if 1/0:\n    print(1)\n", "if 1 + 'a':\n    print(1)\n", "if {[1]: 2}:\n    print(1)\n"],
     "F04-3": ["é = 1\nprint(é)\n"],
-    "F04-4": ["if a:\n    x()\n    z()\nelse:\n    y()\n    z()\n"],
 }
 FIXED_WITNESS = {
+    "F04-1": ["if 1/0:\n    print(1)\n", "if 1 + 'a':\n    print(1)\n", "if {[1]: 2}:\n    print(1)\n",
+              "for i in range(int(1e308 * 10)):\n    print(i)\n", "if 1 in 2:\n    print(1)\n"],
     "F04-2": ["import sys\nprint(iter([x for x in sys.argv]))\n"],
+    "F04-4": ["if a:\n    x()\n    z()\nelse:\n    y()\n    z()\n",
+              "    if a:\n        x()\n        z()\n    else:\n        y()\n        z()\n"],
     "F04-5": ["x = 1 < 'a'\nprint(x)\n", "print([1] <= 2)\n"],
+    "F04-6": ["if a:\n    x()\n    z()\nelse:\n    y()\n    z()",
+              "def f():\n    if a:\n        x()\n        z()\n    else:\n        y()\n        z()",
+              "    if a:\n        x()\n        z()\n    else:\n        y()\n        z()"],
 }
 
 
@@ -142,6 +147,13 @@ def check(run: common.Run):
     for b in drv.early_return_check(mods):
         failing_inputs.append({"kind": "property-oracle", "what": b["problem"], "case": b})
     hist["early-return cases"] = len(drv.early_return_cases()) * 4
+    wsrc = [st for st in sw.EOF_STATEMENTS] + [c.rstrip("\n") for _, c in drv.early_return_cases()] + \
+        [w for w in FIXED_WITNESS["F04-6"]] + ["x = 1\r", "   ", "\t", "a = 1\nprint(a)\n\n\n    "]
+    n_wrap, wbad = drv.wrapper_check(mods, wsrc)
+    for b in wbad[:4]:
+        disagreements.append({"kind": "correspondence", "kernel": "K7 format_code_outer (final line break wrapper) on real strings",
+                              "case": b})
+    hist["wrapper cases (real strings)"] = n_wrap
 
     # (c) fix()/chain() pass bound on the implementation: a rule that never converges is called
     #     exactly max_iter times
@@ -254,7 +266,7 @@ def check(run: common.Run):
                        "explanation": "a property theorem no longer checks"}, have_input)
 
     run.coverage.update(
-        evaluations=fc["evaluations"] + hist["early-return cases"] + 3,
+        evaluations=fc["evaluations"] + hist["early-return cases"] + 3 + n_wrap,
         distinct_nontrivial=fc["distinct"],
         rule=("correspondence cases: main.format_code with every stage replaced by a table lookup: all f : 4 -> 4 on "
               "one stage of _multi_run_fixes x start x safe x keep_imports x {module, indented fragment} (quick: 1/4 "
